@@ -23,6 +23,7 @@ def make_batch(rng):
     vals = [1, 2, 5, "x", "y", True]
     ndocs = rng.randint(2, 4)
     volume = rng.random() < 0.3
+    casevar = rng.random() < 0.3
     docs = []
     for i in range(ndocs):
         d = {k: rng.choice(vals) for k in keys}
@@ -32,6 +33,15 @@ def make_batch(rng):
             del d[keys[0]]
         if volume:
             d["big"] = [{"g": rng.choice([0, 1, 2])} for _ in range(rng.randint(24, 40))]
+        if casevar:
+            # one spelling convention in some documents, two competing spellings of the same name in others: which entry a rule written in a
+            # third spelling reaches must not depend on the documents evaluated before
+            if i % 2 == 0:
+                d["BucketName"] = "x"
+            else:
+                d["bucketName"] = "x"
+                d["BucketName"] = "y"
+                d["bucket-name"] = "z"
         docs.append(d)
     nr = rng.randint(1, 3)
     rules = []
@@ -51,6 +61,8 @@ def make_batch(rng):
             # (nesting depth, recursion guards) must start afresh for every pair
             lines.append("rule pv(e, want) {\n    %%e.g == %%want\n}\nrule r4 {\n    big[*] {\n        not pv(this, %s)\n    }\n}\nrule r5 {\n    some big[*] {\n        pv(this, %s)\n    }\n}"
                          % (gen.glit(rng.choice(["none", 0, 1])), gen.glit(rng.choice([0, 1, 2]))))
+        if casevar:
+            lines.append("rule cvk {\n    bucket_name == \"x\"\n}\nrule cvk2 {\n    Bucket_Name == \"x\" or bucket_name == \"z\"\n}")
         # reads a key that only the --input-parameters document provides (when the batch has one): every pair must see it
         lines.append("rule rp {\n    zp == %s or zp !exists\n    zp exists or %s exists\n}" % (gen.glit(rng.choice(vals)), k1))
         rules.append("\n".join(lines) + "\n")
@@ -123,6 +135,9 @@ def shard(ctx):
     n = 28 if ctx.quick else 800
     for t in range(n):
         rules, docs = make_batch(rng)
+        # batches with competing key spellings: every stand-alone pair (and the batch) runs in a process of its own
+        fresh_singles = any("bucket-name" in d for d in docs)
+        ctx.res.counts["batches_with_fresh_process_singletons"] += 1 if fresh_singles else 0
         dtexts = [json.dumps(d) for d in docs]
         nr, nd = len(rules), len(docs)
         # half of the batches carry an --input-parameters document (merged into every data file)
@@ -142,6 +157,8 @@ def shard(ctx):
             for j, dt in enumerate(dtexts):
                 fl = dict(PF, **{"r%d.guard" % i: rt, "data/" + DN(j): dt})
                 a = ["validate", "-r", "{S}/r%d.guard" % i, "-d", "{S}/data/" + DN(j)] + IT
+                if fresh_singles:
+                    ctx.w.close()           # "validated alone" in the strict sense: a process that has evaluated nothing before
                 rs = ctx.w.run({"k": "cli", "argv": a + ["--structured", "-S", "none", "-o", "json"], "files": fl})
                 rp = ctx.w.run({"k": "cli", "argv": a + ["-S", "none", "-o", "json"], "files": fl})
                 if rs.get("r") != "ok" or rp.get("r") != "ok":
@@ -191,6 +208,8 @@ def shard(ctx):
             ctx.res.counts["batches_with_blank_rules_file"] += 1
         base_case = {"rules": rules, "data": dtexts, "blank": blank if blank is not None else False}
         for (a, b) in orders:
+            if fresh_singles:
+                ctx.w.close()
             rargs = [x for i in a for x in ("-r", "{S}/rules/r%d.guard" % i)]
             if blank is not None and blank is not False:
                 pos_ = 2 * rng.randrange(len(a) + 1)
